@@ -140,11 +140,25 @@ def checked_add_exact(ty):
 INT_RANGE_EARLY = {'u8': (0, 2**8 - 1), 'u16': (0, 2**16 - 1), 'u32': (0, 2**32 - 1), 'u64': (0, 2**64 - 1), 'usize': (0, 2**64 - 1)}
 
 
+def _size_of_type_string(eng, s):
+    for c in eng.facts.crates:
+        a = c.adts.get(s)
+        if a and 'size' in a:
+            return int(a['size'])
+    prim = {'u8': 1, 'i8': 1, 'bool': 1, 'u16': 2, 'i16': 2, 'u32': 4, 'i32': 4, 'f32': 4, 'u64': 8, 'i64': 8, 'f64': 8, 'usize': 8, 'isize': 8,
+            'u128': 16, 'i128': 16}
+    return prim.get(s)
+
+
 def size_of(eng, st, fr, args, fn, site):
     crate = fr.body.crate
     targs = (fn or {}).get('targs') or []
     if targs:
         t = crate.types[targs[0]]
+        if t.get('k') == 'param':
+            # size_of::<T>() inside a generic function inlined with T known
+            n = _size_of_type_string(eng, fr.concrete(targs[0]))
+            return C(n, 'usize') if n is not None else None
         adt = crate.adts.get(t['s'])
         if adt and 'size' in adt:
             return C(adt['size'], 'usize')
@@ -414,6 +428,16 @@ def array_iter_next(eng, st, fr, args, fn, site):
         eng.write(st, d[1], T('arr_iter', arr, C(i + 1, 'usize')))
         return ('agg', OPT, 'Some', (arr[3][i],))
     return ('agg', OPT, 'None', ())
+
+
+def nonnull_as_ref(eng, st, fr, args, fn, site):
+    """NonNull::as_ref(&self) / as_mut: a reference to what the pointer points to"""
+    p = deref(eng, st, ptr_term(args[0]))
+    return p if p[0] == 'ref' else ('ref', (('S', p), ()))
+
+
+def nonnull_new(eng, st, fr, args, fn, site):
+    return ('agg', OPT, 'Some', (args[0],))
 
 
 def bool_then_some(eng, st, fr, args, fn, site):
@@ -897,6 +921,16 @@ SUMMARIES = {
     'std::option::Option::<T>::or_else': hof(OPT, 'None', _rb_or_else_opt),
     'std::option::Option::<std::result::Result<T, E>>::transpose': opt_transpose,
     'std::option::Option::<T>::filter': opt_filter,
+    'std::ptr::non_null::NonNull::<T>::new_unchecked': same_ptr,
+    'std::ptr::non_null::NonNull::<T>::new': nonnull_new,
+    'std::ptr::non_null::NonNull::<T>::as_ptr': same_ptr,
+    'std::ptr::non_null::NonNull::<T>::cast': same_ptr,
+    'std::ptr::non_null::NonNull::<T>::as_ref': nonnull_as_ref,
+    'std::ptr::non_null::NonNull::<T>::as_mut': nonnull_as_ref,
+    'std::ptr::mut_ptr::<impl *mut T>::cast': same_ptr,
+    'std::ptr::const_ptr::<impl *const T>::cast': same_ptr,
+    'std::ptr::mut_ptr::<impl *mut T>::cast_const': same_ptr,
+    'std::ptr::const_ptr::<impl *const T>::cast_mut': same_ptr,
     'std::bool::<impl bool>::then_some': bool_then_some,
     'std::bool::<impl bool>::then': bool_then,
     'std::num::<impl usize>::next_multiple_of': next_multiple_of,
